@@ -577,6 +577,10 @@ func newCoreRun(sc *Scenario, withSched bool) *coreRun {
 		cerr = errReporterClose
 	}
 	switch {
+	case sc.Reporter == "both":
+		// a root configured with a plain AND a cached reporter (legal): every value still reaches a reporter exactly once
+		opts.Reporter = &coreReporter{r}
+		opts.CachedReporter = &coreCached{r}
 	case sc.Reporter == "cached" && sc.Closer:
 		opts.CachedReporter = &coreCachedCloser{coreCached{r}, cerr}
 	case sc.Reporter == "cached":
